@@ -16,7 +16,7 @@ type c16 struct{}
 func (c16) ID() string    { return "C16" }
 func (c16) Level() string { return "fault_enumeration" }
 func (c16) Rule() string {
-	return "one key in every subset of the layers {project environment, env_file 1, 2, 3} x {no environment entry, with value, empty value, without value} x {list, mapping} spelling; two-key cross references (value ${K2} in env file j with K2 defined in exactly one of project environment / earlier file / earlier line / later file); every {present, absent} x {required, optional} state vector of the three env files; discard on/off; the same lattice for label_file 1..2 x labels; every case loaded through the real loader and compared with the layering reference. distinct = distinct (layer subset, outcome) pairs"
+	return "three environment keys at once, each {valueless and defined by the project environment with its own value, valueless and undefined, given a value, absent} x {list, mapping}; one key in every subset of the layers {project environment, env_file 1, 2, 3} x {no environment entry, with value, empty value, without value} x {list, mapping} spelling; two-key cross references (value ${K2} in env file j with K2 defined in exactly one of project environment / earlier file / earlier line / later file); every {present, absent} x {required, optional} state vector of the three env files; discard on/off; the same lattice for label_file 1..2 x labels; every case loaded through the real loader and compared with the layering reference. distinct = distinct (layer subset, outcome) pairs"
 }
 func (c16) Assumptions() []string {
 	return []string{
@@ -33,6 +33,75 @@ func ptrStr(p *string) string {
 }
 
 func (c16) Run(c *core.Ctx) {
+	// ---- three keys at once, each {valueless and defined by the project environment, valueless and undefined, given a value, absent}
+	for code := 0; code < 64; code++ {
+		for spelling := 0; spelling < 2; spelling++ {
+			code, spelling := code, spelling
+			id := fmt.Sprintf("env3/%02d/sp%d", code, spelling)
+			c.Do(id, func() core.Outcome {
+				env := map[string]string{}
+				var sb strings.Builder
+				sb.WriteString("services:\n  s:\n    image: i\n    environment:\n")
+				want := map[string]*string{}
+				x := code
+				for i := 1; i <= 3; i++ {
+					k := fmt.Sprintf("K%d", i)
+					kind := x % 4
+					x /= 4
+					switch kind {
+					case 0: // valueless, project environment defines it (a different value per key)
+						v := fmt.Sprintf("pe%d", i)
+						env[k] = v
+						want[k] = &v
+					case 1: // valueless, undefined: nothing asserted beyond totality
+					case 2:
+						v := fmt.Sprintf("ev%d", i)
+						want[k] = &v
+						env[k] = "pe-loses" // an explicit value is not replaced by the project environment
+					case 3:
+						continue
+					}
+					val := ""
+					if kind == 2 {
+						val = fmt.Sprintf("ev%d", i)
+					}
+					switch {
+					case spelling == 0 && kind == 2:
+						fmt.Fprintf(&sb, "      - %s=%s\n", k, val)
+					case spelling == 0:
+						fmt.Fprintf(&sb, "      - %s\n", k)
+					case kind == 2:
+						fmt.Fprintf(&sb, "      %s: %s\n", k, val)
+					default:
+						fmt.Fprintf(&sb, "      %s:\n", k)
+					}
+				}
+				if spelling == 0 {
+					sb.WriteString("      - Z=z\n")
+				} else {
+					sb.WriteString("      Z: z\n")
+				}
+				files := map[string]string{"compose.yaml": sb.String()}
+				s := &Scn{Files: files, Main: []string{"compose.yaml"}, Env: env, InMem: true}
+				p, err := s.LoadAt(Scratch())
+				sample := map[string]any{"case": id, "files": files, "env": env}
+				if err != nil {
+					return core.Outcome{Class: "err", Sample: sample, Viol: &core.Violation{Key: "env:spurious-error", Msg: id + ": " + err.Error()}}
+				}
+				got := p.Services["s"].Environment
+				cls := ""
+				for i := 1; i <= 3; i++ {
+					k := fmt.Sprintf("K%d", i)
+					cls += k + "=" + ptrStr(got[k]) + ";"
+					if w := want[k]; w != nil && (got[k] == nil || *got[k] != *w) {
+						return core.Outcome{Class: cls, Sample: sample, Viol: &core.Violation{Key: "env:wrong-value:several-keys",
+							Msg: fmt.Sprintf("%s: service environment %s = %s, expected %q", id, k, ptrStr(got[k]), *w)}}
+					}
+				}
+				return core.Outcome{Class: cls, Sample: sample}
+			})
+		}
+	}
 	// ---- single key over the layer lattice
 	for pe := 0; pe < 2; pe++ {
 		for fmask := 0; fmask < 8; fmask++ {
